@@ -52,10 +52,10 @@ func c16Timestamp(c *Ctx, p *Prog, m *Model) {
 		if !ok || bo.Op != token.AND {
 			return 0, false
 		}
-		if g, ok := globalLoad(bo.X); ok && g.Name() == "flags" {
+		if g, ok := globalLoad(bo.X); ok && nm(g) == "flags" {
 			return constIntOr(bo.Y)
 		}
-		if g, ok := globalLoad(bo.Y); ok && g.Name() == "flags" {
+		if g, ok := globalLoad(bo.Y); ok && nm(g) == "flags" {
 			return constIntOr(bo.X)
 		}
 		return 0, false
@@ -91,7 +91,7 @@ func c16Timestamp(c *Ctx, p *Prog, m *Model) {
 				}
 			}
 		case *ssa.Call:
-			if cal := calleeOf(x); cal != nil && (cal.Name() == "IsAnyBitsSet" || cal.Name() == "IsAllBitsSet") {
+			if cal := calleeOf(x); cal != nil && (nm(cal) == "IsAnyBitsSet" || nm(cal) == "IsAllBitsSet") {
 				if v, ok := constInt(x.Common().Args[0]); ok && v == localFlag {
 					return "!localoff", true
 				}
@@ -318,7 +318,7 @@ func c16Timestamp(c *Ctx, p *Prog, m *Model) {
 	if lc := p.Method(p.Slog, "Entry", "logContext"); lc != nil {
 		ok := false
 		for _, cs := range callsIn(lc) {
-			if cal := calleeOf(cs); cal != nil && cal.Name() == "print" {
+			if cal := calleeOf(cs); cal != nil && nm(cal) == "print" {
 				for _, a := range cs.Common().Args {
 					if call, isC := a.(*ssa.Call); isC {
 						if c2 := calleeOf(call); c2 != nil && c2.String() == "time.Now" {
@@ -333,7 +333,7 @@ func c16Timestamp(c *Ctx, p *Prog, m *Model) {
 	if wt := p.Method(p.Slog, "Entry", "WriteThru"); wt != nil {
 		ok := false
 		for _, cs := range callsIn(wt) {
-			if cal := calleeOf(cs); cal != nil && cal.Name() == "print" {
+			if cal := calleeOf(cs); cal != nil && nm(cal) == "print" {
 				for _, a := range cs.Common().Args {
 					if prm, isP := a.(*ssa.Parameter); isP && prm.Type().String() == "time.Time" {
 						ok = true
